@@ -15,6 +15,21 @@ pub fn hex(s: &str) -> String {
     s.as_bytes().iter().map(|b| format!("{b:02x}")).collect()
 }
 
+pub fn hex_bytes(b: &[u8]) -> String {
+    b.iter().map(|b| format!("{b:02x}")).collect()
+}
+
+pub fn unhex_bytes(h: &str) -> Option<Vec<u8>> {
+    if h.len() % 2 != 0 || !h.is_ascii() {
+        return None;
+    }
+    let mut v = Vec::new();
+    for i in (0..h.len()).step_by(2) {
+        v.push(u8::from_str_radix(&h[i..i + 2], 16).ok()?);
+    }
+    Some(v)
+}
+
 pub fn unhex(h: &str) -> Option<String> {
     if h.len() % 2 != 0 {
         return None;
